@@ -96,4 +96,43 @@ Section Hdr.
       - exfalso. apply Hph. rewrite <- Hp. symmetry. apply A5. discriminate. }
     pinj H1. pinj H2. fin_ph Hph.
   Qed.
+
+  Lemma readHeader_sim : readHeader_sim_statement.
+  Proof.
+    intros s1 s2 s1' e1 s2' e2 Hc Hph H1 H2.
+    assert (Hph3 : phase s1 <> phaseHeaderDecoded) by (destruct Hph as [Hp | Hp]; rewrite Hp; discriminate).
+    clear Hph.
+    split_state s1 s2 Hc t1 d1.
+    destruct s2 as [r i o t2 p bf lbl hbd hb d2 ro]. sproj.
+    unfold readHeader in H1, H2. sproj.
+    match type of H1 with context [tryDecodeHeader ?X1] => set (S1 := X1) in * end.
+    match type of H2 with context [tryDecodeHeader ?X2] => set (S2 := X2) in * end.
+    assert (HcS : core S1 = core S2) by (unfold S1, S2; destruct (p =? phaseDecodingHeader); reflexivity).
+    assert (HpS : phase S1 <> phaseHeaderDecoded)
+      by (unfold S1; destruct (p =? phaseDecodingHeader); exact Hph3).
+    assert (HoS : ov S1 = o) by (unfold S1; destruct (p =? phaseDecodingHeader); reflexivity).
+    destruct (tryDecodeHeader S1) as [s1y e1y] eqn:T1.
+    destruct (tryDecodeHeader S2) as [s2y e2y] eqn:T2.
+    destruct (tryDecodeHeader_sim S1 S2 s1y e1y s2y e2y HcS HpS T1 T2) as (A1 & A2 & A3 & A4).
+    subst e2y. rewrite HoS in A3. clear T1 T2 HcS HpS HoS. clearbody S1 S2.
+    split_state s1y s2y A2 t1y d1y.
+    destruct s2y as [ry iy oy t2y py bfy lbly hbdy hby d2y roy]. sproj. subst oy.
+    assert (Fin : forall X1 X2 e,
+              core X1 = core X2 -> ov X1 = o ->
+              (phase X1 = phaseHeaderDecoded -> tb X1 = t1y /\ tb X2 = t2y /\ py = phaseHeaderDecoded) ->
+              (X1, e) = (s1', e1) -> (X2, e) = (s2', e2) ->
+              e1 = e2 /\ core s1' = core s2' /\ ov s1' = o /\
+              (phase s1' = phaseHeaderDecoded -> lookups_eq (tb s1') (tb s2'))).
+    { intros X1 X2 e F1 F2 F3 G1 G2. pinj G1. pinj G2.
+      split; [reflexivity|]. split; [exact F1|]. split; [exact F2|].
+      intros Hp. destruct (F3 Hp) as (Q1 & Q2 & Q3). rewrite Q1, Q2. apply A4. exact Q3. }
+    destruct e1y.
+    all: try (destruct (_ && _) in H1, H2).
+    all: try (apply (Fin _ _ _) with (4 := H1) (5 := H2);
+              [ destruct (p =? phaseDecodingHeader); reflexivity
+              | destruct (p =? phaseDecodingHeader); reflexivity
+              | sproj; destruct (p =? phaseDecodingHeader); sproj; intros Hp;
+                first [ split; [reflexivity|split; [reflexivity|exact Hp]]
+                      | exfalso; unfold phaseDecodingHeader, phaseHeaderDecoded in Hp; lia ] ]).
+  Qed.
 End Hdr.
